@@ -7,3 +7,4 @@ INVARIANT AliveAgree
 INVARIANT EndAgree
 INVARIANT Deterministic
 INVARIANT InlineAgree
+INVARIANT ParsersAgree
